@@ -5,6 +5,7 @@ import OrbitModel.Proofs.EmitterSettle
 import OrbitModel.Model.Store
 import OrbitModel.Proofs.BusClose
 import OrbitModel.Proofs.GenEqSubClose
+import OrbitModel.Proofs.GlobalChan
 /-!
 # C16 — store events are ordered, lossless and never ahead of the state they announce
 
@@ -94,5 +95,29 @@ theorem the_wedged_state_is_reachable :
 returned -/
 theorem forwarder_drains_while_it_closes_tied_to_go_text :
     Gen.subscriberCloseOrder = Order.subscriberClose := gen_subscriberClose_order
+
+/-- **the legacy global channel**: whatever callers came and went before, a caller whose context is live
+gets a channel whose context is live (after the `fix:` commit, finding F41) -/
+theorem live_caller_gets_a_live_global_channel (s : GlobalChan.St) (ctx : Nat)
+    (h : s.ended.contains ctx = false) :
+    s.ended.contains (GlobalChan.globalChannel true s ctx).2 = false :=
+  GlobalChan.live_caller_gets_a_live_channel s ctx h
+
+/-- Refutation witness for the code before that repair: the channel created under the first caller's
+context was handed out for ever; the second caller got it closed and lost every event (replayed on
+the real emitter: `eglobal`, corpus/C16/f41) -/
+theorem second_global_caller_got_the_closed_channel_before_the_fix :
+    let s1 := (GlobalChan.globalChannel false {} 1).1
+    let s2 := GlobalChan.«end» s1 1
+    (GlobalChan.globalChannel false s2 2).2 = 1 ∧ s2.ended.contains (GlobalChan.globalChannel false s2 2).2 = true ∧
+    (GlobalChan.globalChannel true s2 2).2 = 2 :=
+  GlobalChan.second_caller_got_the_closed_channel
+
+/-- a store's legacy channel API listens on the bus the store emits on, also when that bus is the
+default one: `InitBaseStore` of the Go text of this run calls `SetBus` on every path (finding F42: it
+did so only for a bus given by the caller; the legacy subscribers of a store built with default
+options never heard an event — replayed on the real store: `enilbus`, corpus/C16/f42) -/
+theorem legacy_api_listens_on_the_stores_bus_tied_to_go_text : Gen.setBusUnconditional = true :=
+  gen_setBus_unconditional
 
 end Orbit.C16
